@@ -335,24 +335,24 @@ def run(run):
             F = facts.load('w_core', c, v)
             E = effects.Effects(F)
             run.count('fact units')
-            callers_rule(run, F, E)
+            run.guard('callers rule', callers_rule, run, F, E)
             from rules import c05
             for fn in F.find('R_', 'update'):
-                c05.check_entry(run, F, E, fn, c05.UPDATE_SEQ, True)
+                run.guard('check entry', c05.check_entry, run, F, E, fn, c05.UPDATE_SEQ, True)
             for fn in F.find('R_', 'react'):
-                c05.check_entry(run, F, E, fn, c05.REACT_SEQ, True)
-            update_plan_rules(run, F, E)
+                run.guard('check entry', c05.check_entry, run, F, E, fn, c05.REACT_SEQ, True)
+            run.guard('update plan rules', update_plan_rules, run, F, E)
             # the gate of the plan step: set by append only, cleared by the full plan-data reset only -- were it cleared when a plan
             # merely completes, reports made while no plan exists would never be consumed and could fire a later plan's head task
             from rules import c09 as _c09
-            _c09.plan_exists(run, F, E)
+            run.guard('plan exists', _c09.plan_exists, run, F, E)
             run.relabel('C09.b', 'C08.g')
-            status_rules(run, F, E)
-            exit_clears(run, F, E)
-            sibling_rule(run, F, E)
-            status_reports(run, F, E)
+            run.guard('status rules', status_rules, run, F, E)
+            run.guard('exit clears', exit_clears, run, F, E)
+            run.guard('sibling rule', sibling_rule, run, F, E)
+            run.guard('status reports', status_reports, run, F, E)
             # C08.c: the scan's activity predicate
-            c06.check_is_active(run, F)
+            run.guard('check is active', c06.check_is_active, run, F)
             facts.drop(F)
             cfgmod.clear_cache()
     for o in run.obligations:
@@ -373,7 +373,7 @@ def run(run):
             c2[0] += 1
             c2[1] += 1 if o['ok'] else 0
     run.rule_counts = {k: v for k, v in run.rule_counts.items() if v[0] > 0}
-    static_units.report(run, 'C08.d', 'taskstatus')
+    run.guard('report', static_units.report, run, 'C08.d', 'taskstatus')
     run.floor('C08.a', 10)
     run.floor('C08.b', 10)
     run.floor('C08.c', 20)
